@@ -49,6 +49,9 @@ type StreamScenario struct {
 	// UpgradeDeadlineUs > 0 (client side): the Upgrade exchange runs under a
 	// context with this deadline; the operations afterwards use their own contexts.
 	UpgradeDeadlineUs int `json:"upgrade_deadline_us,omitempty"`
+	// UpgradeCtxEnds (client side): Upgrade runs under a context of its own that is
+	// cancelled as soon as it has returned; the receive function gets a live one.
+	UpgradeCtxEnds bool `json:"upgrade_ctx_ends,omitempty"`
 	// Duplex: the write operations run in a second task, concurrently with the
 	// reads (ctxio allows a Write concurrent with a Read / ReadBytes).
 	Duplex bool `json:"duplex,omitempty"`
@@ -361,7 +364,16 @@ func (s *StreamScenario) Setup(k *sim.Kernel) {
 				uctx = sim.NewCtx(time.Duration(s.UpgradeDeadlineUs) * time.Microsecond)
 				failKind = "upgrade.timedout" // its own deadline may expire: no finding
 			}
-			recv, err := conn.Upgrade(uctx, "a.b.Up", json.RawMessage(`{"x":1}`))
+			sctx := uctx
+			var ends *sim.DeadlineCtx
+			if s.UpgradeCtxEnds {
+				ends = sim.NewCtx(0)
+				sctx = ends
+			}
+			recv, err := conn.Upgrade(sctx, "a.b.Up", json.RawMessage(`{"x":1}`))
+			if ends != nil {
+				ends.Cancel()
+			}
 			if err != nil {
 				sim.Rec(failKind, err.Error())
 				return
@@ -582,6 +594,13 @@ func (s *StreamScenario) Check(k *sim.Kernel) []sim.Violation {
 		}
 		detail := s.describeMismatch(ops)
 		out = append(out, vio("stream", key, "the bytes returned by the consumer's reads (%d bytes in %d runs separated by failed reads) are not the peer's stream in order and without loss/duplication%s: %s", got, len(segs), map[bool]string{true: " (bytes consumed by a cancelled read may be missing, nothing sent after it returned)", false: ""}[lossy], detail))
+	}
+	// ---- a frame read that reports success returns a frame: it ends with the delimiter
+	for i, op := range s.Ops {
+		if o := ops[i]; op.Kind == "frame" && o.done && o.res.Err == "nil" && (len(o.res.Data) == 0 || o.res.Data[len(o.res.Data)-1] != 0) {
+			out = append(out, vio("stream", "frame-without-delimiter", "op %d (ReadBytes(0), context %q) reported success with %d bytes that do not end with the delimiter: %q", i, op.Ctx.Mode, len(o.res.Data), abbreviate(string(o.res.Data), 60)))
+			break
+		}
 	}
 	// ---- a read that can be satisfied returns
 	pos := 0
@@ -955,6 +974,15 @@ func genStreamBase(g *Gen, prop string) *StreamScenario {
 		s.First = `{"parameters":{"ok":true}}`
 		if g.Pct(30) {
 			s.Transport = "bridge"
+		}
+		switch g.IntN(12) {
+		case 0:
+			// whatever flags the reply to the upgrade carries, the payload starts right after it
+			s.First = `{"parameters":{"ok":true},"continues":true}`
+		case 1:
+			s.First = `{"continues":false,"parameters":{}}`
+		case 2, 3:
+			s.UpgradeCtxEnds = true
 		}
 	} else {
 		s.First = `{"method":"a.b.Up","upgrade":true,"parameters":{"x":1}}`
